@@ -1,7 +1,9 @@
 # ruff: noqa: E721
 import builtins
 import math
+import unicodedata
 from enum import Enum
+from keyword import iskeyword
 from typing import Any, Optional
 
 BUILTIN_TO_NAME = {
@@ -14,6 +16,14 @@ NAME_TO_BUILTIN = {name: obj for obj, name in BUILTIN_TO_NAME.items()}
 
 class _CannotBeRenderedError(Exception):
     pass
+
+
+def is_plain_keyword_argument(name: str) -> bool:
+    """Checks if the name can be written as ``name=value`` in a call.
+    Keywords are rejected by the parser, other identifiers are NFKC-normalized by it,
+    so a name out of this form would turn into another one
+    """
+    return not iskeyword(name) and unicodedata.normalize("NFKC", name) == name
 
 
 def get_literal_expr(obj: object) -> Optional[str]:
